@@ -710,6 +710,9 @@ def run(ck: Check) -> None:
             if "exc" in r:
                 citems += ["false", "false", "false"]
                 continue
+            if math.prod(w[0]) > 4096:      # large parameters: enumerating and sorting every offset in coqc is too slow; the storage-identity flags decide
+                citems += [coq_bool(r["ok_p"]), coq_bool(r["ok_g"]), coq_bool(r["ok_u"])]
+                continue
             citems.append(f"andb {coq_bool(r['ok_p'])} (C05_checkb {sh_thr_mg(w)} {views(r['pb'])})")
             citems.append(f"(C05_grad_checkb {views(r['pb'])} {views(r['gb'])})")
             citems.append(coq_bool(r["ok_u"]) if r["storage"] is None else f"andb {coq_bool(r['ok_u'])} (update_okb {views(r['pb'])} {zs(r['bases'])} {zs(r['storage'])})")
@@ -738,7 +741,7 @@ def run(ck: Check) -> None:
             failing.sort()
             _, _, _, i, f = failing[0]
             w, r = dwork[i], dres[i]
-            what = {"blocks": "parameter blocks are not an exact tiling by narrows of the (legally merged) parameter with dims <= max_preconditioner_dim, or are not views of its storage",
+            what = {"blocks": "parameter blocks are not an exact tiling by narrows of the (legally merged) parameter with dims <= max_preconditioner_dim, or are not detached (requires_grad=False) views of its storage with its dtype",
                     "grad-blocks": "gradient blocks do not cover the same index sets as the parameter blocks (or are not views of the gradient)",
                     "update": "update_params did not add direction k exactly to the elements block k addresses"}[f[0]]
             if "exc" in r:
